@@ -49,6 +49,17 @@ func observe(c Case) (observation, *rec.Outcome) {
 		return o, nil
 	}
 	o.format = prog.Format()
+	// "repeating ... reproduces": formatting the same parsed program again is a repetition too
+	func() {
+		defer func() {
+			if r := recover(); r != nil {
+				o.format += "\x1eformat-again-panics:" + fmt.Sprint(r)
+			}
+		}()
+		if again := prog.Format(); again != o.format {
+			o.format += "\x1eformat-again-differs:" + again
+		}
+	}()
 	if rec.UnboundedRepetition(prog) {
 		// a repetition with a large count exhausts the host's memory in one allocation (C02's finding F53):
 		// such a program is parsed and formatted here, not run
@@ -104,6 +115,9 @@ func checkCase(c Case) *h.Failure {
 	if crash != nil {
 		return nil // crashes are C02/C03's business
 	}
+	if i := strings.Index(first.format, "\x1eformat-again-"); i >= 0 {
+		return mk("format-differs", "formatting the same parsed program a second time gives a different result: "+first.format[i+1:])
+	}
 	for i := 1; i < max(c.R, 2); i++ {
 		o, crash := observe(c)
 		if crash != nil {
@@ -112,6 +126,8 @@ func checkCase(c Case) *h.Failure {
 		switch {
 		case o.errs != first.errs:
 			return mk("parse-errors-differ", fmt.Sprintf("repetition %d reports different parse errors %s", i+1, firstDiff(first.errs, o.errs)))
+		case strings.Contains(o.format, "\x1eformat-again-"):
+			return mk("format-differs", "formatting the same parsed program a second time gives a different result: "+o.format[strings.Index(o.format, "\x1eformat-again-")+1:])
 		case o.format != first.format:
 			return mk("format-differs", fmt.Sprintf("repetition %d formats differently %s", i+1, firstDiff(first.format, o.format)))
 		case o.trace != first.trace:
